@@ -57,20 +57,38 @@ func main() {
 
 // ------------------------------------------------------------------ parent
 func parent() int {
+	// a Go panic always leaves its report on stderr; a child that disappears without one was killed from outside
+	// (out-of-memory killer, ...): that is no evidence about the request in flight, the run is repeated
+	for attempt := 0; attempt < 3; attempt++ {
+		lines, crashed, genuine := runOnce()
+		if crashed && !genuine {
+			fmt.Fprintf(os.Stderr, "c12: child process vanished without a panic report (attempt %d), repeating\n", attempt+1)
+			continue
+		}
+		out := bufio.NewWriterSize(os.Stdout, 1<<20)
+		for _, ln := range lines {
+			fmt.Fprintln(out, ln)
+		}
+		out.Flush()
+		return 0
+	}
+	fmt.Fprintln(os.Stderr, "c12: the child process was killed from outside three times in a row")
+	return 3
+}
+
+func runOnce() (lines []string, crashed bool, genuine bool) {
 	cmd := exec.Command(os.Args[0], append(append([]string{}, os.Args[1:]...), "-child")...)
 	var stderr bytes.Buffer
 	cmd.Stderr = &stderr
 	pipe, err := cmd.StdoutPipe()
 	if err != nil {
 		fmt.Fprintln(os.Stderr, err)
-		return 3
+		os.Exit(3)
 	}
 	if err := cmd.Start(); err != nil {
 		fmt.Fprintln(os.Stderr, err)
-		return 3
+		os.Exit(3)
 	}
-	out := bufio.NewWriterSize(os.Stdout, 1<<20)
-	defer out.Flush()
 	sc := bufio.NewScanner(pipe)
 	sc.Buffer(make([]byte, 1<<20), 1<<28)
 	last := ""
@@ -89,25 +107,27 @@ func parent() int {
 			continue
 		}
 		last = ""
-		fmt.Fprintln(out, ln)
+		lines = append(lines, ln)
 	}
 	werr := cmd.Wait()
-	if werr != nil || !done {
-		tail := stderr.String()
-		if i := strings.Index(tail, "panic:"); i >= 0 {
-			tail = tail[i:]
-		}
-		if len(tail) > 1500 {
-			tail = tail[:1500]
-		}
-		f := strings.Split(last, "\t")
-		if len(f) >= 5 {
-			fmt.Fprintf(out, "c12.crash\t%s\t%s\t%s\t%s\t%s\n", f[1], f[2], f[3], f[4], hx(tail))
-		} else {
-			fmt.Fprintf(out, "c12.crash\t?\tnone\t-\t-\t%s\n", hx(tail))
-		}
+	if werr == nil && done {
+		return lines, false, false
 	}
-	return 0
+	tail := stderr.String()
+	genuine = strings.Contains(tail, "panic:") || strings.Contains(tail, "fatal error:") || strings.Contains(tail, "goroutine ")
+	if i := strings.Index(tail, "panic:"); i >= 0 {
+		tail = tail[i:]
+	}
+	if len(tail) > 1500 {
+		tail = tail[:1500]
+	}
+	f := strings.Split(last, "\t")
+	if len(f) >= 5 {
+		lines = append(lines, fmt.Sprintf("c12.crash\t%s\t%s\t%s\t%s\t%s", f[1], f[2], f[3], f[4], hx(tail)))
+	} else {
+		lines = append(lines, fmt.Sprintf("c12.crash\t?\tnone\t-\t-\t%s", hx(tail)))
+	}
+	return lines, true, genuine
 }
 
 // ------------------------------------------------------------------ the fake model plugin
